@@ -12,6 +12,7 @@ from .graphsim import InjectedFault, SimScheduler, StepCap, under
 from .util import derive_seed
 
 determinism.install()
+HERE = __import__("os").path.dirname(__import__("os").path.abspath(__file__))
 
 
 def build_with_bases(case, backend):
@@ -35,6 +36,16 @@ def build_with_bases(case, backend):
         rasters.append(xr.DataArray(arr, dims=tuple(spec["dims"]), coords=coords,
                                     attrs=copy.deepcopy(spec.get("attrs", {})), name=spec.get("name")))
     return rasters, bases
+
+
+def _from_harness(e):
+    """True if the exception was raised by the simulator's own code (a harness
+    bug must never be reported as a violation of the property)."""
+    tb = traceback.extract_tb(e.__traceback__)
+    if not tb:
+        return False
+    last = tb[-1].filename
+    return last.startswith(HERE) and not last.endswith("cases.py")
 
 
 def result_digest(got):
@@ -130,6 +141,8 @@ def run_case(case, sched, compare, want=None, m1=False):
                 except InjectedFault:
                     raise
                 except Exception as e:
+                    if _from_harness(e):
+                        raise
                     out["status"] = "violation"
                     info = _exc_info(e)
                     out["violation"] = {"class": "dask_raises:" + info["type"], "exc": info,
